@@ -25,8 +25,8 @@ ASSUMPTIONS = [
     "termination is decided on logical steps (sys.monitoring PY_START budget), wall-clock only as watchdog",
 ]
 PLAN = {"quick": dict(topologies=1600, D=12), "thorough": dict(topologies=12000, D=150)}
-FLOORS = {"quick": {"constructions": 10000, "depth_values_checked": 60000, "values_at_max_depth": 8000, "codec_roundtrips": 50000, "topologies_with_direct_edges": 150},
-          "thorough": {"constructions": 80000, "depth_values_checked": 500000, "values_at_max_depth": 70000, "codec_roundtrips": 400000, "topologies_with_direct_edges": 1000}}
+FLOORS = {"quick": {"constructions": 10000, "depth_values_checked": 60000, "values_at_max_depth": 8000, "codec_roundtrips": 50000, "topologies_with_direct_edges": 150, "hybrid_inputs": 2500},
+          "thorough": {"constructions": 80000, "depth_values_checked": 500000, "values_at_max_depth": 70000, "codec_roundtrips": 400000, "topologies_with_direct_edges": 1000, "hybrid_inputs": 30000}}
 
 
 def is_cyclic(n, es):
@@ -66,6 +66,44 @@ def container_value(kind, make):
     if kind == "dict":
         return {"a": make(), "b": make()}
     return (make(),)
+
+
+def hybridize(tp, i, w, rng, depth=0):
+    """The wire form w of a value of class i with some nested levels replaced by INSTANCES of their class that still hold wire values
+    (constructors of dataclasses / NamedTuples do not validate). Returns (hybrid, number of instances planted)."""
+    if not isinstance(w, dict) or depth > 40:
+        return w, 0
+    out, planted = {}, 0
+    for k, x in w.items():
+        if not (k.startswith("e") and "_" in k):
+            out[k] = x
+            continue
+        b = int(k[1:].split("_")[0])
+
+        def sub(d):
+            nonlocal planted
+            if not isinstance(d, dict):
+                return d
+            h, n = hybridize(tp, b, d, rng, depth + 1)
+            planted += n
+            if rng.random() < 0.35:
+                try:
+                    inst = tp.cls(b)(**h)
+                except Exception:  # noqa: BLE001
+                    return h
+                planted += 1
+                return inst
+            return h
+
+        if isinstance(x, dict) and k.endswith("_dict"):
+            out[k] = {kk: sub(d) for kk, d in x.items()}
+        elif isinstance(x, dict):
+            out[k] = sub(x)
+        elif isinstance(x, list):
+            out[k] = [sub(d) for d in x]
+        else:
+            out[k] = x
+    return out, planted
 
 
 def canaries(sh):
@@ -168,6 +206,21 @@ def run_shard(sh):
                     if not same(u, v):
                         sh.violation("level-not-restored", value=short(v, 300), observed=short(u, 300), **rec)
                         continue
+                    # the same wire with some levels already built as instances that still hold raw members: every level below
+                    # such an instance must be converted all the same
+                    if flavour != "typeddict" and kind is None and isinstance(m, dict) and d >= 1:
+                        hyb, planted = hybridize(tp, ci, m, rng)
+                        if planted:
+                            sh.count("hybrid_inputs")
+                            try:
+                                with quiet():
+                                    uh = um(hyb)
+                                if not same(uh, v):
+                                    sh.violation("level-passed-through-raw", value=short(hyb, 300), observed=short(uh, 300), expected=short(v, 200), **rec)
+                            except RecursionError:
+                                pass
+                            except Exception as e:  # noqa: BLE001
+                                sh.violation("level-passed-through-raw", value=short(hyb, 300), observed=f"raised {type(e).__name__}: {e}"[:200], **rec)
                     try:
                         with quiet():
                             u2 = cdc.decode(cdc.encode(v))
